@@ -182,3 +182,50 @@ package routing
 //@   modifies *
 //@   at call dyn:callback#1 assert a0 == f && a1 == key && a2 == paramValueGroup && a3 == overrideOutbound
 //@   ensures calls("dyn:callback") == 1
+
+// C04 (the pipeline): optimizers work on a deep copy of what the user wrote; each optimizer receives the
+// previous one's result, every optimizer of the list is applied (an error ends the pipeline with no program),
+// and the program keeps the fallback as given.
+//@ func ApplyRulesOptimizers
+//@   anchorsonly
+//@   nonilcheck
+//@   dyncalls noeffect
+//@   modifies *
+//@   at call DeepCloneRules#1 assert a0 == rules
+//@   at call RulesOptimizer).Optimize#1 assert a0 == optimizers[$idx] && calls("DeepCloneRules") == 1
+//@   at return 1 assert err != nil
+//@   loop 1
+//@     exit $idx == len(optimizers)
+//@ func NewNormalizedProgram
+//@   anchorsonly
+//@   nonilcheck
+//@   dyncalls noeffect
+//@   modifies *
+//@   at call ApplyRulesOptimizers#1 assert a0 == rules && a1 == optimizers && len(optimizers) > 0
+//@   at call DeepCloneRules#1 assert a0 == rules && len(optimizers) == 0
+//@   at return 1 assert err != nil
+//@   at return 2 assert calls("ApplyRulesOptimizers") + calls("DeepCloneRules") == 1
+//@ func (*NormalizedProgram).Lower
+//@   anchorsonly
+//@   nonilcheck
+//@   dyncalls noeffect
+//@   modifies *
+//@   at call dyn:registerParsers#1 assert a0 == builder
+//@   at call Apply#1 assert a0 == builder && a1 == p.Rules && (registerParsers != nil ==> calls("dyn:registerParsers") == 1)
+//@   at call dyn:addFallback#1 assert a0 == p.Fallback && calls("Apply") == 1
+
+// alias rewriting: every rule, condition and value is visited, and no dport/dip alias is left behind when
+// the values of a condition are looked at
+//@ func (*AliasOptimizer).Optimize
+//@   anchorsonly
+//@   nonilcheck
+//@   dyncalls noeffect
+//@   modifies *
+//@   at return 1 assert result0 == rules && result1 == nil
+//@   loop 1
+//@     exit $idx == len(rules)
+//@   loop 2
+//@     exit $idx == len(rule.AndFunctions)
+//@   loop 3
+//@     entry function.Name != "dport" && function.Name != "dip"
+//@     exit $idx == len(function.Params)
